@@ -84,6 +84,21 @@ def rule_TS(ctx, owners=None, rule="TS", only=None):
     prog = ctx.prog
     ctx.rule(rule, "tree editor methods agree with the frozen reference semantics: returned term of the queries; per guard scenario the multiset of primitive effects of the editors (refresh calls excluded)", 8)
     done = 0
+    # the reference of a method calls the *reference* helpers (a refactoring may change a private helper's calling
+    # convention together with its callers)
+    from ..model import FunctionInfo
+    import textwrap
+
+    override = {}
+    for q, src in REFERENCE.items():
+        cur = prog.functions.get(q)
+        if cur is None:
+            continue
+        node = ast.parse(textwrap.dedent(src).strip("\n") + "\n").body[0]
+        ref = FunctionInfo(q, node, cur.module, cls=cur.cls, parent=cur.parent)
+        if node.decorator_list == [] and cur.node.decorator_list:
+            node.decorator_list = [d for d in cur.node.decorator_list if ast.unparse(d) in ("staticmethod", "classmethod", "property")]
+        override[q] = ref
     for q, src in REFERENCE.items():
         owner, name = q.rsplit(".", 1)
         if owners is not None and not any(owner.endswith(o) for o in owners):
@@ -107,7 +122,7 @@ def rule_TS(ctx, owners=None, rule="TS", only=None):
             ignored = IGNORED - {"compute_log_S"}
         try:
             ex = extract(prog, fi, **opts)
-            sp = spec(prog, src, fi, **opts)
+            sp = spec(prog, src, fi, override=override, **opts)
         except Unsupported as e:
             ctx.note("%s: not interpretable by TermFlow (%s) - covered by the pairing rules only" % (short, str(e)[:100]))
             continue
